@@ -603,7 +603,7 @@ public:
     if (c.trackers && r.chance(0.8))
       c.tracker_variant = (int)r.range(1, 9);
     if (prop == "C12" && r.chance(0.4))
-      c.fields_mask = (int)r.below(8);
+      c.fields_mask = (int)r.below(16);
     return c.to_json();
   }
 
